@@ -80,6 +80,7 @@ type Result struct {
 	Fired     map[string]int `json:"fired"`
 	SchedHash uint64         `json:"sched_hash"`
 	Note      string         `json:"note"`
+	NumCPU    int            `json:"num_cpu"`
 }
 
 var (
@@ -320,6 +321,7 @@ func WriteResult(exit int) {
 	res.Exit = exit
 	res.Ops = seq
 	res.TapeUsed = tapePos
+	res.NumCPU = runtime.NumCPU()
 	if plan == nil || plan.ResultPath == "" {
 		return
 	}
